@@ -21,7 +21,8 @@ Inductive c17_case :=
 | WriterCase (total interval t0 : Z) (evs : list (Z * Z)) (obs : list Z)
 | ReaderCase (interval t0 : Z) (evs : list (Z * bool * Z)) (obs : list Z)
 | CallCase (interval : Z) (bodies : list body_run) (obs : list Z)   (* redirect hops + saved body *)
-| SessionCase (nreq : nat) (ops : list sop) (obs : list sout)   (* requests of one client, in sequence *)
+| SessionCase (owners : list nat) (ops : list sop) (obs : list sout)
+    (* requests of a client and of its clones, in sequence; owners: the client each request was made from *)
 | WriterAnyClock (total : Z) (ns : list Z) (obs : list Z)
 | ReaderAnyClock (ns : list Z) (obs : list Z).
 
@@ -123,7 +124,7 @@ Definition c17_check (c : c17_case) : bool :=
   | ReaderCase interval t0 evs obs =>
       zlist_eqb (run_reader interval (r0 t0) evs) obs
   | CallCase interval bodies obs => zlist_eqb (call_reports interval bodies) obs
-  | SessionCase nreq ops obs => list_eqb sout_eqb (srun (sinit nreq) ops) obs
+  | SessionCase owners ops obs => list_eqb sout_eqb (srun (sinit owners) ops) obs
   | WriterAnyClock total ns obs =>
       subseq obs (running 0 ns) &&
       (if existsb (Z.eqb total) (running 0 ns) then existsb (Z.eqb total) obs else true)
